@@ -119,7 +119,7 @@ def gen_spec(r: apigen.Rng, idx: int, clean: bool):
             svc["methods"].append(meth)
         services.append(svc)
     opts = {"transport": r.pick(["grpc", "grpc+rest", "rest", "grpc+rest"]), "snippets": r.maybe(0.35),
-            "metadata": r.maybe(0.6), "numeric_enums": r.maybe(0.3), "retry": r.maybe(0.8)}
+            "metadata": r.maybe(0.6), "numeric_enums": r.maybe(0.3), "retry": r.maybe(0.8), "ads": r.maybe(0.12)}
     return {"idx": idx, "clean": clean, "nfiles": nfiles, "messages": msgs, "file_resources": file_res,
             "services": services, "opts": opts}
 
@@ -238,6 +238,8 @@ def build_request(spec, workdir):
         params.append("metadata")
     if o["numeric_enums"]:
         params.append("rest-numeric-enums")
+    if o.get("ads"):                     # the alternative template tree (works with old-naming, without snippets)
+        params = ["python-gapic-templates=ads-templates", "old-naming", "autogen-snippets=false"]
     if o["retry"] and retry_cfg["methodConfig"]:
         p = os.path.join(workdir, f"retry_{spec['idx']}.json")
         with open(p, "w") as fh:
@@ -320,7 +322,7 @@ def classify(spec_types_by_service, summary):
     # test module follows the same loop and numbers its sample values by position)
     if has_equal and set(kinds) <= HELPER_FILES and all(f["reorder_only"] for f in summary["files"] if not f["name"].startswith("tests/")):
         return "equal-sort-key:resource_type"
-    return "order-leak:" + ",".join(kinds)
+    return "nondeterministic:" + ",".join(kinds[:2]) + (",+%d" % (len(kinds) - 2) if len(kinds) > 2 else "")
 
 
 # ----------------------------------------------------------------------------------------- runs
@@ -340,6 +342,19 @@ def run_many(jobs, workers=None):
     with cf.ThreadPoolExecutor(max_workers=workers) as ex:
         futs = [ex.submit(genrun.generate_subproc, b, {"PYTHONHASHSEED": s}, c, 600) for (b, s, c) in jobs]
         return [f.result() for f in futs]
+
+
+def ask(ctx, ops):
+    """driver round trip; the native driver is re-linked whenever another property's check rebuilds it
+    (several builders share lean/.lake): wait and retry instead of reporting an infrastructure error"""
+    import time
+    for attempt in range(40):
+        try:
+            return ctx.driver.ask(ops)
+        except (FileNotFoundError, PermissionError, OSError, RuntimeError) as e:
+            last = e
+            time.sleep(3)
+    raise last
 
 
 # ----------------------------------------------------------------------------------------- inventory (T1-style tie)
@@ -427,7 +442,7 @@ def t2_functions(ctx, r):
     for t in texts:
         for d in (True, False):
             ops.append({"op": "c10.sort_lines", "text": t, "dedupe": d}); meta.append((t, d))
-    for (t, d), mo in zip(meta, ctx.driver.ask(ops)):
+    for (t, d), mo in zip(meta, ask(ctx, ops)):
         real = sort_lines(t, dedupe=d)
         ctx.case(distinct_key=["sort_lines", t, d], nontrivial=bool(t.strip()))
         ctx.traces += 1
@@ -448,7 +463,7 @@ def t2_functions(ctx, r):
         r.shuffle(items)
         ops.append({"op": "c10.sort_by_key", "items": items, "fold": True}); meta.append(("attr", items))
         ops.append({"op": "c10.sort_by_key", "items": items, "fold": False}); meta.append(("sorted", items))
-    for (how, items), mo in zip(meta, ctx.driver.ask(ops)):
+    for (how, items), mo in zip(meta, ask(ctx, ops)):
         ctx.case(distinct_key=["sort_by_key", how, items], nontrivial=len(items) > 1)
         ctx.traces += 1
         objs = [_Obj(k=k, i=i) for k, i in items]
@@ -470,7 +485,7 @@ def t2_functions(ctx, r):
     for _ in range(ctx.n(30, 300)):
         xs = r.sample(keypool, r.randint(0, 6))
         ops.append({"op": "c10.sort_by_key", "items": [[x, x] for x in xs], "fold": True}); meta.append(xs)
-    for xs, mo in zip(meta, ctx.driver.ask(ops)):
+    for xs, mo in zip(meta, ask(ctx, ops)):
         real = [x for x in tpl_plain.render(xs=xs).split(",") if x]
         ctx.case(distinct_key=["jinja_sort", xs], nontrivial=len(xs) > 1); ctx.traces += 1
         if mo.get("order") != real:
@@ -478,7 +493,7 @@ def t2_functions(ctx, r):
     # ---- exception class table of the S2 instance theorem
     import grpc
     from google.api_core import exceptions
-    table = set(ctx.driver.ask([{"op": "c10.exceptions"}])[0]["names"])
+    table = set(ask(ctx, [{"op": "c10.exceptions"}])[0]["names"])
     real_names = {exceptions.exception_class_for_grpc_status(c).__name__ for c in grpc.StatusCode}
     ctx.traces += 1
     if not real_names <= table:
@@ -544,7 +559,7 @@ def t2_schema(ctx, r, req, spec):
         for s in (names[:3] + ["zzz_unused", "_" + names[0] if names else "x"]):
             ops.append({"op": "c10.disambiguate", "names": names, "s": s})
             checks.append(("disambiguate", proto.disambiguate(s), None, {"names": names, "s": s}))
-    out = ctx.driver.ask(ops)
+    out = ask(ctx, ops)
     for (what, real, extra, payload), mo in zip(checks, out):
         ctx.traces += 1
         ctx.count("t2_schema", what)
@@ -589,7 +604,7 @@ def observe(ctx, spec, sched, outs, api, per_service, label):
     nres = sum(len(v) for v in per_service.values())
     ctx.case({"label": label, "clean": spec["clean"], "opts": spec["opts"], "resources": nres, "runs": len(sched)},
              distinct_key=["api", json.dumps(spec, sort_keys=True)])
-    ctx.count("transport", spec["opts"]["transport"]); ctx.count("snippets", spec["opts"]["snippets"])
+    ctx.count("transport", "ads-templates" if spec["opts"].get("ads") else spec["opts"]["transport"]); ctx.count("snippets", spec["opts"]["snippets"])
     ctx.count("processes", "runs", len(sched))
     ctx.count("equal_short_type_groups", sum(len(equal_key_groups([t for t, _ in v])) for v in per_service.values()))
     if all(rc != 0 for rc in rcs):
@@ -626,7 +641,7 @@ def observe(ctx, spec, sched, outs, api, per_service, label):
                 names = sorted(e.__name__ for e in m.retry.retryable_exceptions)
                 ops.append({"op": "c10.sort_by_key", "items": [[n, n] for n in names], "fold": True})
                 checks.append(("retry", svc, (m, names)))
-    model = ctx.driver.ask(ops)
+    model = ask(ctx, ops)
     for k, o in enumerate(outs):
         resp = ra if k == 0 else plugin_pb2.CodeGeneratorResponse.FromString(o[1])
         files = {f.name: f.content for f in resp.file}
@@ -680,7 +695,7 @@ def run(ctx):
     ctx.assume("option files (retry-config) are referenced by absolute path: the statement fixes 'the same referenced option files'")
     ctx.assume("resource type strings are unique per message/definition within an API (resource-name specification)")
     ctx.assume("identifiers are ASCII (the model's case folding is ASCII); proto3 field names are distinct up to case (protoc enforces it)")
-    ctx.assume("extended-operation (compute-style) services, mixins and the ads templates are covered by the inventory only, not by generated cases")
+    ctx.assume("extended-operation (compute-style) services and mixins are covered by the inventory only, not by generated cases")
     check_inventory(ctx)
     workdir = tempfile.mkdtemp(prefix="gapicverif_c10_", dir=genrun.SCRATCH)
     try:
